@@ -11,8 +11,8 @@ import (
 // All engines use the same shape so that the coordinator's delta-debugging
 // minimiser can drop and shrink steps without knowing the engine.
 type Step struct {
-	Op string           `json:"op"`
-	A  map[string]int64 `json:"a,omitempty"`
+	Op string            `json:"op"`
+	A  map[string]int64  `json:"a,omitempty"`
 	S  map[string]string `json:"s,omitempty"`
 }
 
